@@ -767,8 +767,8 @@ def run_cond_fault(spec, acc):
     after part of the waiters were rescheduled.  The caller retries (signal /
     unhang, from a plain thread or from inside a task).  Whatever the faults: no
     waiter is resumed twice for one wait - seen as falling through the second
-    wait although its condition never held - and the waiters in front of the
-    failing one are resumed once."""
+    wait although its condition never held - and every waiter whose clock runs
+    is resumed once, whether it queued before or behind the failing one."""
     from sc3.base.main import main
     from sc3.base import clock as clk, stream as stm
     from sc3.base.functions import Function
@@ -867,9 +867,16 @@ def run_cond_fault(spec, acc):
                 acc.violation(f'C11/waiter-never-resumed-after-release/{tag}',
                               dict(w, waiter=k))
                 break
-            if k > first_bad and where[k] not in stopped and ng == 0:
-                # the unchanged library drops the waiters behind the failing one
-                acc.count('fault_waiters_behind_failure_not_resumed')
+            if k > first_bad and where[k] not in stopped:
+                # behind the failing waiter in the queue, on a clock that runs:
+                # the condition holds and was signalled (the caller even
+                # retried), so it resumes - once
+                acc.count('fault_waiters_behind_failure_checked')
+                if ng != 1:
+                    acc.violation(
+                        'C11/waiter-never-resumed-after-release/behind-failing-waiter',
+                        dict(w, waiter=k))
+                    break
         if main.current_tt is not main.main_tt:
             acc.violation('C11/current-thread-not-restored/after-failed-release', w)
             main.current_tt = main.main_tt
